@@ -4822,6 +4822,8 @@ static size_t ZSTD_compressContinue_internal (ZSTD_CCtx* cctx,
         ZSTD_overflowCorrectIfNeeded(
             ms, &cctx->workspace, &cctx->appliedParams,
             src, (BYTE const*)src + srcSize);
+        /* block mode has no ZSTD_checkDictValidity() : a non-contiguous segment ends the validity of an attached dictionary */
+        if (ms->loadedDictEnd != ms->window.dictLimit) ms->dictMatchState = NULL;
     }
 
     DEBUGLOG(5, "ZSTD_compressContinue_internal (blockSize=%u)", (unsigned)cctx->blockSize);
